@@ -212,6 +212,9 @@ def run(ctx):
     for n in walk_local(bkw):
         if isinstance(n, ast.Assign) and isinstance(n.targets[0], ast.Name) and rets and n.targets[0].id == rets[-1].value.id and isinstance(n.value, ast.Dict):
             fac_kwd = dict(dict_items(n.value))
+    for r in walk_local(bkw):
+        if isinstance(r, ast.Return) and isinstance(r.value, ast.Dict):
+            fac_kwd = dict(dict_items(r.value))
     core_cp = params(get_method(get_class(src.tree(ATTRS), 'CryptographicParameters'), '__init__'))
     core_kwd = params(get_method(get_class(src.tree(COBJ), 'KeyWrappingData'), '__init__'))
     fsite = '%s:%s ObjectFactory' % (PIEFAC, bcp.lineno)
